@@ -15,9 +15,9 @@ import (
 type Verdict int
 
 const (
-	OK          Verdict = iota
-	Discard             // not judged (reason in Msg): input outside the domain or oracle unavailable
-	Violation           // property violated (Msg says how)
+	OK        Verdict = iota
+	Discard           // not judged (reason in Msg): input outside the domain or oracle unavailable
+	Violation         // property violated (Msg says how)
 )
 
 // Outcome of an oracle.
